@@ -205,14 +205,11 @@ Proof.
 Qed.
 Lemma map_norm_id l : Forall scalar_nf l -> map norm l = l.
 Proof. induction 1; cbn; auto. rewrite scalar_nf_norm, IHForall; auto. Qed.
+(* since _listby groups on cmp(...) == 0 the precondition holds for EVERY key list *)
+Lemma eq_cmp_compat_always ks : eq_cmp_compat ks.
+Proof. intros a b _ _. unfold key_eqb. apply Z.eqb_eq. Qed.
 Theorem scalar_keys_compat ks : Forall (fun k => exists l, k = VTuple l /\ Forall scalar_nf l) ks -> eq_cmp_compat ks.
-Proof.
-  intros F a b Ha Hb. rewrite Forall_forall in F. destruct (F a Ha) as [la [-> Fa]]. destruct (F b Hb) as [lb [-> Fb]].
-  unfold cmp, cmpc. cbn [norm key_eqb]. rewrite !map_norm_id by auto. rewrite cmpn_eq. cbn [rank len0 cmpn_body]. rewrite Z.compare_refl. cbn [thenc].
-  destruct (Nat.eqb_spec (length la) (length lb)) as [E|E].
-  - rewrite E, Z.compare_refl. cbn [thenc andb]. rewrite (forallb_lexz la lb Fa Fb E). destruct (lexz cmpn la lb); cbn; split; congruence.
-  - cbn [andb]. destruct (Z.compare_spec (Z.of_nat (length la)) (Z.of_nat (length lb))); cbn; try lia; split; congruence.
-Qed.
+Proof. intros _. apply eq_cmp_compat_always. Qed.
 (* ================================================================== table level: unlist . listby and ungroup . groupby *)
 Definition is_list (v : val) : bool := match v with VList _ => true | _ => false end.
 Definition scalar_table (t : table) : Prop := Forall (fun cv => Forall (fun v => is_list v = false) (snd cv)) t.
